@@ -126,7 +126,7 @@ func (n *pgNode) Render(pos int) string {
 	case "float":
 		return pgFmtFloat(math.Float64frombits(n.FBits))
 	case "str":
-		return "\"" + n.S + "\""
+		return "\"" + pgEscapeStr(n.S) + "\""
 	case "ident":
 		return n.Name
 	case "let":
@@ -938,6 +938,159 @@ func (g *pgProgGen) leaf(t *pgTy, e *pgGenv) *pgNode {
 	panic("leaf: bad type")
 }
 
+
+// ---- the string methods of coq/Sem/StrLib.v ----
+
+// a string literal of the value language: the tokenizer knows \n \r \t \" \\
+func pgEscapeStr(s string) string {
+	if !strings.ContainsAny(s, "\\\"\n\r\t") {
+		return s
+	}
+	var b strings.Builder
+	for _, c := range s {
+		switch c {
+		case '\\':
+			b.WriteString("\\\\")
+		case '"':
+			b.WriteString("\\\"")
+		case '\n':
+			b.WriteString("\\n")
+		case '\r':
+			b.WriteString("\\r")
+		case '\t':
+			b.WriteString("\\t")
+		default:
+			b.WriteRune(c)
+		}
+	}
+	return b.String()
+}
+
+// receivers: mostly ASCII (blanks, upper case, separators, lines, numerals), a few non-ASCII strings
+// (the model answers unsupported for trim/toLower/toUpper/behind/behindList on them: skipped, not guessed)
+var pgStrRecvPool = []string{" ab ", "a,b,,c", "Hello World", "x1\ty ", "k: v1\nk2:  v2 ", "head\n l1 \nl2\n\nl3", "aXbXc", "42", "-7", "+15",
+	"12a", "", "aaa", "9223372036854775807", "9223372036854775808", "-9223372036854775808", "\u00e9", "\u00c4b c\u20ac", "a\u00e9a", "zz", "ab"}
+var pgStrArgPool = []string{"a", ",", "", "b", "X", "k:", "k2:", "head", " ", "aa", "\u00e9", "l", "ab", "World"}
+
+var pgStrMethodShare = map[string]float64{"int": 0.05, "str": 0.22, "bool": 0.06, "list": 0.30}
+
+var pgStrMethodArgs = map[string]string{"trim": "", "toLower": "", "toUpper": "", "toInt": "", "len": "", "contains": "s", "indexOf": "s",
+	"split": "s", "behind": "s", "behindList": "s", "cut": "ii", "replace": "ss"}
+
+func (g *pgProgGen) strRecv(e *pgGenv, size int) *pgNode {
+	if size <= 1 || g.chance(0.65) {
+		return pgNStr(g.oneOf(pgStrRecvPool))
+	}
+	return g.expr(pgTStr, e, size, false)
+}
+
+// a call of a string method with result type t (int: indexOf toInt len; str: trim toLower toUpper cut
+// replace behind; bool: contains; list of str: split behindList); nil for any other type.
+// Mostly valid arguments; 10 %: one argument too few / too many / of another type.
+func (g *pgProgGen) strMethod(t *pgTy, e *pgGenv, size int) *pgNode {
+	var name string
+	switch {
+	case t.K == "int":
+		name = g.oneOf([]string{"indexOf", "indexOf", "toInt", "toInt", "len"})
+	case t.K == "str":
+		name = g.oneOf([]string{"trim", "toLower", "toUpper", "cut", "cut", "replace", "replace", "behind"})
+	case t.K == "bool":
+		name = "contains"
+	case t.K == "list" && t.Elem != nil && t.Elem.K == "str":
+		name = g.oneOf([]string{"split", "split", "behindList"})
+	default:
+		return nil
+	}
+	sig := pgStrMethodArgs[name]
+	p := g.split(max(size-1, 1+len(sig)), 1+len(sig))
+	recv := g.strRecv(e, p[0])
+	if name == "toInt" && g.chance(0.5) {
+		recv = pgNStr(g.oneOf([]string{"42", "-7", "+15", "0", "007", "12a", "", "-", "9223372036854775807", "9223372036854775808"}))
+	}
+	if name == "behindList" && g.chance(0.7) {
+		recv = pgNStr(g.oneOf([]string{"head\n l1 \nl2\n\nl3", " head \na\n \nb", "x\nhead", "head\n\nz", "a\nb"}))
+	}
+	var args []*pgNode
+	for i, k := range sig {
+		if k == 's' {
+			if p[1+i] <= 1 || g.chance(0.7) {
+				args = append(args, pgNStr(g.oneOf(pgStrArgPool)))
+			} else {
+				args = append(args, g.expr(pgTStr, e, p[1+i], true))
+			}
+		} else {
+			if p[1+i] <= 1 || g.chance(0.7) {
+				args = append(args, pgNInt(int64(g.pick(7)-1)))
+			} else {
+				args = append(args, g.expr(pgTInt, e, p[1+i], true))
+			}
+		}
+	}
+	if g.chance(0.1) {
+		switch c := g.pick(3); {
+		case c == 0 && len(args) > 0:
+			args = args[:len(args)-1]
+		case c == 1:
+			args = append(args, pgNInt(1))
+		case len(args) > 0:
+			i := g.pick(len(args))
+			args[i] = g.leaf(g.otherType(&pgTy{K: map[rune]string{'s': "str", 'i': "int"}[rune(sig[i])]}), e)
+		}
+	}
+	return pgNMethod("method", recv, name, args...)
+}
+
+// pgStrCorpus: fixed programs, a few per string method of the model's pool, argument s (a string)
+// and n (an int); run first by C01 and C02.
+func pgStrCorpus() []*pgProgram {
+	ts := func(s string) *Tree { return &Tree{Kind: "str", S: s} }
+	ti := func(i int) *Tree { return &Tree{Kind: "int", I: i} }
+	tuples := [][]*Tree{{ts(" a,b,,c "), ti(2)}, {ts("k: v\nhead\n x \ny\n\nz"), ti(-1)}, {ts(""), ti(0)}, {ts("a\u00e9,\u20acb"), ti(1)}, {ts("-12"), ti(40)}}
+	s := func() *pgNode { return pgNId("s") }
+	n := func() *pgNode { return pgNId("n") }
+	m := func(recv *pgNode, name string, args ...*pgNode) *pgNode { return pgNMethod("method", recv, name, args...) }
+	mk := func(t *pgNode) *pgProgram {
+		return &pgProgram{T: t, ArgNames: []string{"s", "n"}, Tuples: tuples, Stream: "corpus"}
+	}
+	str := pgNStr
+	return []*pgProgram{
+		mk(pgNList(m(s(), "trim"), m(str("\t x y\n"), "trim"), m(str(""), "trim"))),
+		mk(pgNList(m(s(), "toLower"), m(str("AbC zZ@[`{"), "toLower"), m(s(), "toUpper"), m(str("AbC zZ@[`{"), "toUpper"))),
+		mk(pgNList(m(s(), "contains", str(",")), m(s(), "contains", str("")), m(str("abc"), "contains", s()), m(str("abc"), "contains", str("bc")))),
+		mk(pgNList(m(s(), "indexOf", str(",")), m(s(), "indexOf", str("")), m(s(), "indexOf", str("b")), m(str("a\u00e9\u20acb"), "indexOf", str("b")), m(str("abcabc"), "indexOf", str("ca")))),
+		mk(pgNList(m(s(), "split", str(",")), m(s(), "split", str("")), m(s(), "split", str(",,")), m(str("aXXbXXXc"), "split", str("XX")), m(str(""), "split", str("")))),
+		mk(pgNList(m(s(), "cut", pgNInt(1), n()), m(s(), "cut", n(), pgNInt(2)), m(str("abcdef"), "cut", pgNInt(2), pgNInt(3)), m(str("abcdef"), "cut", pgNInt(6), pgNInt(1)),
+			m(str("abcdef"), "cut", pgNInt(-3), pgNInt(0)), m(str("a\u00e9\u20acb"), "cut", pgNInt(1), pgNInt(2)), m(str(""), "cut", n(), n()))),
+		mk(pgNList(m(s(), "replace", str(","), str(";")), m(s(), "replace", str(""), str("-")), m(str("aaaa"), "replace", str("aa"), str("a")), m(str("abc"), "replace", str("b"), s()),
+			m(str(""), "replace", str(""), str("x")))),
+		mk(pgNList(m(s(), "behind", str("k:")), m(s(), "behind", str("")), m(s(), "behind", str("nope")), m(str("a: 1\nb:  2  \nb: 3"), "behind", str("b:")))),
+		mk(pgNList(m(s(), "behindList", str("head")), m(s(), "behindList", str(" head ")), m(str("h\n a \n\tb\n \nc"), "behindList", str("h")), m(str("x\nh"), "behindList", str("h")),
+			m(str("\nq"), "behindList", str("")))),
+		mk(pgNList(m(str("42"), "toInt"), m(str("-7"), "toInt"), m(str("+15"), "toInt"), m(str("007"), "toInt"), m(str("9223372036854775807"), "toInt"),
+			m(str("-9223372036854775808"), "toInt"), pgNTry(m(s(), "toInt"), n()), pgNTry(m(str("9223372036854775808"), "toInt"), n()),
+			pgNTry(m(str("1_0"), "toInt"), n()), pgNTry(m(str("+"), "toInt"), n()), pgNTry(m(str(" 1"), "toInt"), n()), pgNTry(m(str("0x10"), "toInt"), n()))),
+		// misuse: wrong argument type, wrong argument count, unknown method (each caught)
+		mk(pgNList(pgNTry(m(s(), "contains", n()), pgNInt(-1)), pgNTry(m(s(), "cut", str("1"), n()), pgNInt(-2)), pgNTry(m(s(), "cut", n(), str("1")), pgNInt(-3)),
+			pgNTry(m(s(), "replace", str("a")), pgNInt(-4)), pgNTry(m(s(), "trim", n()), pgNInt(-5)), pgNTry(m(s(), "split", pgNList()), pgNInt(-6)),
+			pgNTry(m(s(), "replace", str("a"), n()), pgNInt(-7)), pgNTry(m(s(), "indexOf"), pgNInt(-8)), pgNTry(m(n(), "trim"), pgNInt(-9)))),
+		// visit / eval / set / closure.args (argument s unused)
+		mk(pgNList(m(pgNList(pgNInt(1), n(), pgNInt(3)), "visit", pgNInt(7), pgNClo([]string{"a", "b"}, pgNOp("-", pgNOp("*", pgNId("a"), pgNInt(3)), pgNId("b")))),
+			m(pgNList(), "visit", n(), pgNClo([]string{"a", "b"}, pgNId("b"))),
+			pgNTry(m(pgNList(pgNInt(1)), "visit", n(), pgNClo([]string{"a"}, pgNId("a"))), pgNInt(-1)),
+			pgNTry(m(pgNList(pgNInt(1)), "visit", n(), n()), pgNInt(-2)))),
+		mk(pgNList(m(pgNList(pgNInt(1), n(), pgNInt(3)), "set", pgNInt(0), s()), m(pgNList(pgNInt(1), n(), pgNInt(3)), "set", pgNInt(2), pgNInt(9)),
+			pgNTry(m(pgNList(pgNInt(1), n()), "set", pgNInt(2), pgNInt(9)), pgNInt(-1)), pgNTry(m(pgNList(pgNInt(1), n()), "set", pgNInt(-1), pgNInt(9)), pgNInt(-2)),
+			pgNTry(m(pgNList(pgNInt(1), n()), "set", n(), pgNInt(9)), pgNInt(-3)), pgNTry(m(pgNList(pgNInt(1)), "set", s(), pgNInt(9)), pgNInt(-4)),
+			pgNTry(m(pgNList(), "set", pgNInt(0), pgNInt(9)), pgNInt(-5)), m(m(pgNList(pgNInt(1), n()), "map", pgNClo([]string{"e"}, pgNOp("*", pgNId("e"), pgNInt(2)))), "eval"),
+			m(pgNList(), "eval"))),
+		mk(pgNList(m(pgNClo([]string{"a"}, pgNId("a")), "args"), m(pgNClo([]string{"a", "b", "c"}, n()), "args"),
+			m(pgNClo([]string{"a", "b"}, pgNOp("+", pgNId("a"), n())), "args"), pgNTry(m(pgNClo([]string{"a"}, pgNId("a")), "args", n()), pgNInt(-1)))),
+		// results flow on: a split list through list methods, indexOf into cut
+		mk(m(m(m(s(), "split", str(",")), "map", pgNClo([]string{"p"}, m(m(pgNId("p"), "trim"), "toUpper"))), "reverse")),
+		mk(m(s(), "cut", pgNOp("+", m(s(), "indexOf", str(",")), pgNInt(1)), m(m(s(), "split", str(",")), "size"))),
+	}
+}
+
 // ---- expressions ----
 
 // split a budget into k parts (each >= 1)
@@ -1646,6 +1799,11 @@ func (g *pgProgGen) typed(t *pgTy, e *pgGenv, size int, allowLet bool) *pgNode {
 	if size <= 1 {
 		return g.leaf(t, e)
 	}
+	if (t.K == "int" || t.K == "str" || t.K == "bool" || (t.K == "list" && t.Elem != nil && t.Elem.K == "str")) && g.chance(pgStrMethodShare[t.K]) {
+		if n := g.strMethod(t, e, size); n != nil {
+			return n
+		}
+	}
 	switch t.K {
 	case "int":
 		if !g.illTyped && size >= 4 && g.chance(0.07) {
@@ -1673,6 +1831,11 @@ func (g *pgProgGen) typed(t *pgTy, e *pgGenv, size int, allowLet bool) *pgNode {
 		case c < 80:
 			return pgNMethod("method", g.expr(pgTList(g.scalarType()), e, size-1, false), "size")
 		case c < 83:
+			if g.chance(0.4) {
+				k := 1 + g.pick(3)
+				at := []*pgTy{pgTInt, pgTInt, pgTInt}[:k]
+				return pgNMethod("method", g.expr(pgTFun(pgTInt, at...), e, size-1, false), "args")
+			}
 			return pgNMethod("method", g.expr(pgTStr, e, size-1, false), "len")
 		case c < 87:
 			return pgNMethod("method", g.expr(pgTList(pgTInt), e, size-1, false), "sum")
@@ -1688,6 +1851,9 @@ func (g *pgProgGen) typed(t *pgTy, e *pgGenv, size int, allowLet bool) *pgNode {
 			init := g.expr(pgTInt, e, p[2], true)
 			if p[2] >= 3 && g.chance(0.4) {
 				init = g.binder(pgTInt, e, p[2])
+			}
+			if g.chance(0.35) {
+				return pgNMethod("method", l, "visit", init, cb) // List.Visit: the loop of mapReduce
 			}
 			return pgNMethod("method", l, "mapReduce", init, cb)
 		case c < 94:
@@ -1842,9 +2008,12 @@ func (g *pgProgGen) typed(t *pgTy, e *pgGenv, size int, allowLet bool) *pgNode {
 			if p[1] >= 3 && g.chance(0.4) {
 				x = g.binder(t.Elem, e, p[1])
 			}
+			if g.chance(0.3) {
+				return pgNMethod("method", g.expr(t, e, p[0], false), "set", pgNInt(int64(g.pick(4)-1)), x) // out of range at times
+			}
 			return pgNMethod("method", g.expr(t, e, p[0], false), "append", x)
 		case c < 82:
-			return pgNMethod("method", g.expr(t, e, size-1, false), "reverse")
+			return pgNMethod("method", g.expr(t, e, size-1, false), g.oneOf([]string{"reverse", "reverse", "eval"}))
 		case c < 92:
 			p := g.split(size-1, 2)
 			return pgNOp("+", g.expr(t, e, p[0], false), g.expr(t, e, p[1], false))
